@@ -518,6 +518,10 @@ func (c *Ctx) Bin(op Op, a, b *Term) *Term {
 			if b.val == mask(w) {
 				return a
 			}
+			// zext(x) & k with k's low bits (the only possibly set ones) all zero
+			if a.op == OpZext && b.val&mask(a.args[0].sort.w) == 0 {
+				return c.Const(w, 0)
+			}
 		}
 	case OpBOr:
 		if a == b {
